@@ -139,10 +139,9 @@ func genVecUnary(g *vlib.G) {
 			g.Case(fmt.Sprintf("CopyVec a=%s recv=%s", ka.name, state), func(t *vlib.T) {
 				var v verdict
 				for l := 1; l <= n; l++ {
-					for _, d := range []int{0, 2, -1} {
-						ml := l + d
+					for ml := 1; ml <= n+2; ml++ { // every receiver length against every source length
 						a := makeVec(ka, l, 1, famMixed)
-						if a == nil || ml < 1 {
+						if a == nil {
 							continue
 						}
 						rc := newVecRecv(state, ml, 0)
